@@ -129,7 +129,9 @@ class phs_merge_then_decode_contract:
     shapes = [dict(history=h) for h in HISTORIES]
     # quick: all histories of length <= 2, plus the 60 three-kernel histories over a sub-pool in which a later merge adds an
     # alternative to a ChooseOp that was created AFTER some muxes (switch order != creation order of the decoded values)
-    quick = lambda sh: len(sh["history"]) <= 2 or (len(sh["history"]) == 3 and all(k in ("a-b", "(b-a)+c", "c-(a*b)", "(a*b)+c", "a*a") for k in sh["history"]))
+    quick = lambda sh: len(sh["history"]) <= 2 or (len(sh["history"]) == 3 and (all(k in ("a-b", "(b-a)+c", "c-(a*b)", "(a*b)+c", "a*a") for k in sh["history"])
+                                                                                 # ... and those in which three kernels route three different sources to one input (mux CHAINS)
+                                                                                 or all(k in ("a+b", "b-a", "c-a", "c-b") for k in sh["history"])))
     native = False
     total = True
     permissive = True
